@@ -16,3 +16,185 @@ package transport
 //@   modifies *
 //@   ensures (result_1 == nil) == (result_0 != nil)
 //@   ensures result_1 == nil ==> len(*result_0) >= 12
+
+// ---------------------------------------------------------------------------------------------
+// Channels of this package.
+// Reply channels carry pooled buffers holding at least a DNS header; nobody closes them.
+//@ chanmsg *[]byte (v) noclose: v != nil && len(*v) >= 12
+// chan struct{} are notification channels: never sent on, only closed (this includes ctx.Done()).
+//@ chanmsg struct{} (v): false
+
+//@ spec func be16(b []byte) int = b[0] * 256 + b[1]
+
+// The network connection below a DNS connection (abstract: whatever the peer does).
+//@ interface NetConn.SetReadDeadline
+//@   params self, t
+//@ interface NetConn.SetDeadline
+//@   params self, t
+//@ interface NetConn.SetWriteDeadline
+//@   params self, t
+//@ interface NetConn.Close
+//@   log Close
+//@   params self
+
+// ---------------------------------------------------------------------------------------------
+// TraditionalDnsConn (UDP / TCP pipelining / DoT).
+//   res: ghost, thread-local: reservations taken on this connection by the current thread and not
+//   yet released. reservedQuery is the sum of all threads' res, hence >= this thread's.
+//@ type TraditionalDnsConn
+//@   immutable c, isTcp, idleTimeout, maxCq, closeNotify
+//@   ghost res int
+//@   tracks reservedQuery by res
+//@   lock queueMu protects reservedQuery, nextQid, queue
+//@   invariant queueMu: self.queue != nil && self.res >= 0 && self.reservedQuery >= self.res && self.reservedQuery <= self.maxCq
+//@   invariant queueMu: forall k uint32 :: (k in self.queue) ==> self.queue[k] != nil && cap(self.queue[k]) >= 1
+//@   shared closeErr stable closed(self.closeNotify) ==> self.closeErr != nil
+//@   invariant self.closeNotify != nil && self.c != nil && self.maxCq >= 1
+
+// addQueueC (C01, C02): the wire id handed out is not in the waiter table when it is taken, the
+// table gains exactly that one entry (nothing else changes), and the reply channel can hold one
+// reply so that the reader's non-blocking hand-off cannot miss a caller that is not parked yet.
+//@ func (dc *TraditionalDnsConn) addQueueC [C01, C02]
+//@   requires dc != nil
+//@   ensures c != nil ==> fresh(c) && cap(c) >= 1
+//@   ensures c != nil ==> !(uint32(qid) in atlock(dc.queue)) && atunlock((uint32(qid) in dc.queue) && dc.queue[uint32(qid)] == c)
+//@   ensures c != nil ==> atunlock(dc.queue) == atlock(dc.queue) && (forall k uint32 :: k != uint32(qid) ==> ((k in atunlock(dc.queue)) == (k in atlock(dc.queue))) && atunlock(dc.queue[k]) == atlock(dc.queue[k]))
+//@   ensures c == nil ==> atunlock(dc.queue) == atlock(dc.queue) && (forall k uint32 :: ((k in atunlock(dc.queue)) == (k in atlock(dc.queue))) && atunlock(dc.queue[k]) == atlock(dc.queue[k]))
+//@   ensures atunlock(dc.reservedQuery) == atlock(dc.reservedQuery)
+//@   loop 0:
+//@     invariant dc != nil && 0 <= i && dc.queue == atlock(dc.queue) && dc.reservedQuery == atlock(dc.reservedQuery)
+//@     invariant forall k uint32 :: ((k in dc.queue) == (k in atlock(dc.queue))) && dc.queue[k] == atlock(dc.queue[k])
+//@     decreases 100 - i
+
+// deleteQueueC (C01): removes exactly the entry of qid.
+//@ func (dc *TraditionalDnsConn) deleteQueueC [C01]
+//@   log deleteQueueC
+//@   requires dc != nil
+//@   ensures atunlock(dc.queue) == atlock(dc.queue) && !(uint32(qid) in atunlock(dc.queue))
+//@   ensures forall k uint32 :: k != uint32(qid) ==> ((k in atunlock(dc.queue)) == (k in atlock(dc.queue))) && atunlock(dc.queue[k]) == atlock(dc.queue[k])
+//@   ensures atunlock(dc.reservedQuery) == atlock(dc.reservedQuery)
+
+// getQueueC (C01): the channel registered under exactly this id, nil if there is none.
+//@ func (dc *TraditionalDnsConn) getQueueC [C01, C02]
+//@   log getQueueC
+//@   requires dc != nil
+//@   ensures result == ite(uint32(qid) in atlock(dc.queue), atlock(dc.queue[uint32(qid)]), nil)
+//@   ensures result != nil ==> cap(result) >= 1
+
+// ReserveNewQuery (C09): refuses exactly when the connection already carries its limit of
+// reserved-or-running queries (every running exchange holds its reservation until it returns, so
+// reservedQuery alone is the number of unanswered queries); the counter never exceeds the limit
+// (monitor invariant) and a granted reservation is recorded for the caller.
+//@ func (dc *TraditionalDnsConn) ReserveNewQuery [C09]
+//@   requires dc != nil
+//@   modifies dc.res
+//@   ensures closed ==> result_0 == nil && dc.res == old(dc.res)
+//@   ensures !closed ==> (result_0 != nil) == (atlock(dc.reservedQuery) < dc.maxCq)
+//@   ensures result_0 != nil ==> dc.res == old(dc.res) + 1 && istype(result_0, *tdcOneTimeExchanger) && result_0.val == dc
+//@   ensures result_0 == nil ==> dc.res == old(dc.res)
+//@   ensures result_0 != nil ==> atunlock(dc.reservedQuery) == atlock(dc.reservedQuery) + 1
+//@   ensures result_0 == nil && !closed ==> atunlock(dc.reservedQuery) == atlock(dc.reservedQuery)
+
+// WithdrawReserved / ExchangeReserved (C09): each consumes exactly one reservation of the caller
+// on every path; the shared counter goes down by exactly one and cannot underflow.
+//@ func (ote *tdcOneTimeExchanger) WithdrawReserved [C09]
+//@   log withdrawReserved
+//@   requires ote != nil && ote.res >= 1
+//@   modifies ote.res
+//@   ensures ote.res == old(ote.res) - 1
+//@   ensures atunlock(ote.reservedQuery) == atlock(ote.reservedQuery) - 1 && atunlock(ote.reservedQuery) >= 0
+
+//@ func (ote *tdcOneTimeExchanger) ExchangeReserved [C09, C01]
+//@   requires ote != nil && ctx != nil && ote.res >= 1 && len(q) >= 12 && ctx.Done() != ote.closeNotify
+//@   modifies *
+//@   ensures ote.res == old(ote.res) - 1
+//@   ensures calls(tdcExchange) == 1 && calls(withdrawReserved) == 1 && callpos(withdrawReserved, 0) > callpos(tdcExchange, 0)
+//@   ensures resp == ret(tdcExchange, 0, 0) && err == ret(tdcExchange, 0, 1)
+
+// copyMsg / copyMsgWithLenHdr (C01, C16): a private pooled copy of m (with its 2-byte length in front).
+//@ func copyMsgWithLenHdr [C01]
+//@   ensures (result_1 == nil) == (len(m) <= 65535) && (result_1 == nil) == (result_0 != nil)
+//@   ensures result_1 == nil ==> fresh(result_0) && fresh((*result_0).ref) && len(*result_0) == len(m) + 2 && be16(*result_0) == len(m)
+//@   ensures result_1 == nil ==> forall i int :: 0 <= i && i < len(m) ==> (*result_0)[i+2] == m[i]
+//@   ensures result_1 != nil ==> calls(GetBuf) == 0
+//@ func copyMsg [C01]
+//@   ensures result != nil && fresh(result) && fresh((*result).ref) && len(*result) == len(m)
+//@   ensures forall i int :: 0 <= i && i < len(m) ==> (*result)[i] == m[i]
+
+// writeQuery (C01): what goes on the wire is q with only its id bytes replaced by the assigned wire
+// id (after the length prefix on stream transports); q itself is not touched; the copy is released.
+//@ spec func wireCopy(p []byte, q []byte, id int, tcp bool) bool = ite(tcp, len(p) == len(q) + 2 && be16(p) == len(q) && p[2] * 256 + p[3] == id && (forall i int :: 2 <= i && i < len(q) ==> p[i+2] == q[i]), len(p) == len(q) && be16(p) == id && (forall i int :: 2 <= i && i < len(q) ==> p[i] == q[i]))
+//@ func (dc *TraditionalDnsConn) writeQuery [C01]
+//@   log writeQuery
+//@   requires dc != nil && len(q) >= 12
+//@   ensures calls(Write) <= 1 && calls(ReleaseBuf) == calls(Write)
+//@   ensures calls(Write) == 1 ==> arg(Write, 0, 0) == dc.c && atcall(Write, 0, wireCopy(arg(Write, 0, 1), q, assignedQid, dc.isTcp)) && result == ret(Write, 0, 1)
+//@   ensures calls(Write) == 0 ==> result != nil
+
+// CloseWithErr (C07): closing happens once (sync.Once); the run that closes records a non-nil
+// error BEFORE it closes the notification channel, so every waiter woken by the close finds it.
+//@ func (dc *TraditionalDnsConn) CloseWithErr [C07]
+//@   log tdcCloseWithErr
+//@   requires dc != nil
+//@   modifies *
+//@   preserves comp(TraditionalDnsConn.res)
+//@   ensures calls(onceDo) == 1
+//@ func (dc *TraditionalDnsConn) CloseWithErr$1 [C07]
+//@   requires dc != nil && err != nil
+//@   modifies *
+//@   preserves comp(TraditionalDnsConn.res)
+//@   ensures calls(chanClose) == 1 && arg(chanClose, 0, 0) == dc.closeNotify && calls(Close) == 1 && arg(Close, 0, 0) == dc.c
+//@   ensures closed(dc.closeNotify)
+
+// exchange (C01, C02, C07).
+//  C07: exactly one of reply / error is returned (never nil,nil), on every path.
+//  C01: a reply is taken from the channel this call registered (and from nowhere else), the
+//       caller's id is restored in it, and the registration is removed on every exit; every
+//       transmission carries the assigned wire id.
+//  C02: the waiter is registered before the first transmission, and a path that gives up because
+//       the connection closed has looked into its reply channel AFTER it saw the close.
+//@ func (dc *TraditionalDnsConn) exchange [C01, C02, C07]
+//@   log tdcExchange
+//@   requires dc != nil && ctx != nil && len(q) >= 12 && ctx.Done() != dc.closeNotify
+//@   modifies *
+//@   preserves comp(TraditionalDnsConn.res)
+//@   ensures[C07] (result_0 != nil) != (result_1 != nil)
+//@   ensures[C01] result_0 != nil ==> len(*result_0) >= 12 && be16(*result_0) == old(be16(q))
+//@   ensures[C01] result_0 != nil ==> calls(addQueueC) == 1 && lastarg(chanRecv, 0) == ret(addQueueC, 0, 1) && result_0 == lastret(chanRecv, 0)
+//@   ensures[C01] calls(addQueueC) <= 1 && (calls(addQueueC) == 1 && ret(addQueueC, 0, 1) != nil ==> calls(deleteQueueC) == 1 && arg(deleteQueueC, 0, 1) == ret(addQueueC, 0, 0))
+//@   ensures[C01] calls(writeQuery) >= 1 ==> arg(writeQuery, 0, 1) == q && arg(writeQuery, 0, 2) == ret(addQueueC, 0, 0)
+//@   ensures[C02] calls(writeQuery) >= 1 ==> calls(addQueueC) == 1 && ret(addQueueC, 0, 1) != nil && callpos(addQueueC, 0) < callpos(writeQuery, 0)
+//@   ensures[C02] result_0 == nil && calls(addQueueC) == 1 && ret(addQueueC, 0, 1) != nil && lastpos(chanRecv) > callpos(addQueueC, 0) && lastarg(chanRecv, 0) == dc.closeNotify ==> lastpos(pollEmpty) > lastpos(chanRecv) && lastarg(pollEmpty, 0) == ret(addQueueC, 0, 1)
+//@   loop 0:
+//@     invariant dc != nil && len(q) >= 12 && respChan != nil
+//@     each[C01] iter_calls(writeQuery) <= 1 && (iter_calls(writeQuery) == 1 ==> iter_arg(writeQuery, 0, 1) == q && iter_arg(writeQuery, 0, 2) == assignedQid)
+
+// readLoop (C01, C02): every frame read is dispatched by the wire id it carries, to the channel
+// registered under exactly that id; a frame nobody waits for is released; the hand-off does not
+// block, and the channel it uses has room for one reply, so it can only fail when a reply for the
+// same waiter is already queued.
+//@ func (dc *TraditionalDnsConn) readLoop [C01, C02]
+//@   requires dc != nil
+//@   modifies *
+//@   loop 0:
+//@     invariant dc != nil
+//@     each[C01] iter_calls(getQueueC) == 1 && iter_atcall(getQueueC, 0, iter_arg(getQueueC, 0, 1) == be16(*r)) && iter_calls(chanSend) + iter_calls(pollFull) <= 1
+//@     each[C01] iter_calls(chanSend) == 1 ==> iter_arg(chanSend, 0, 0) == iter_ret(getQueueC, 0) && iter_arg(chanSend, 0, 1) == r && iter_calls(ReleaseBuf) == 0
+//@     each[C01] iter_calls(chanSend) == 0 ==> iter_calls(ReleaseBuf) == 1 && iter_arg(ReleaseBuf, 0, 0) == r
+//@     each[C01] iter_ret(getQueueC, 0) != nil ==> iter_calls(chanSend) + iter_calls(pollFull) == 1
+//@     each[C02] iter_calls(pollFull) == 1 ==> iter_arg(pollFull, 0, 0) == iter_ret(getQueueC, 0) && cap(iter_arg(pollFull, 0, 0)) >= 1
+
+//@ func (dc *TraditionalDnsConn) readResp [C01]
+//@   requires dc != nil
+//@   modifies *
+//@   ensures (err == nil) == (payload != nil)
+//@   ensures err == nil ==> len(*payload) >= 12
+
+// readMsgUdp: datagrams shorter than a DNS header are skipped.
+//@ func readMsgUdp [C01]
+//@   requires r != nil
+//@   modifies *
+//@   ensures (result_1 == nil) == (result_0 != nil)
+//@   ensures result_1 == nil ==> len(*result_0) >= 12
+//@   loop 0:
+//@     invariant payload != nil && len(*payload) == 4095 && cap(*payload) >= 4095 && r != nil && allocated(payload)
